@@ -35,33 +35,24 @@ fn counts() -> [usize; model::POOL] {
     c
 }
 
-// Sequence: new; (optional store x1); (optional store x2); load; load   – x1, x2 any pool objects,
-// including the value already stored (same value again) and A-B-A (x2 == initial).
-// @harness name=c16_cache_load props=C16 tier=quick flavour=nostd timeout=2400 fn=Cache::new+Cache::load+Cache::revalidate
-#[cfg_attr(kani, kani::proof)]
-#[cfg_attr(kani, kani::stub(crate::debt::Debt::pay_all, crate::debt::verif_h::pay_all_stub))]
-#[cfg_attr(kani, kani::unwind(12))]
-pub(crate) fn c16_cache_load() {
+/// One scenario: container holds `init`; Cache::new; the listed stores happen; then the observing
+/// load. All values concrete (the code only compares pointers; see api.rs on why concrete).
+fn cache_scenario(init: usize, stores: &[usize]) {
+    crate::debt::verif_h::list_h::setup_thread_node();
     hy::fresh_ledger();
-    let init = hy::any_obj();
     let s: AS<DefaultConfig> = ArcSwapAny::with_strategy(TP::adopt(init), hy::strategy::<DefaultConfig>());
     let c0 = counts();
     let mut cache = Cache::new(&s);
     vassert!(model::cnt(init) == c0[init] + 1, "cache_new_holds_exactly_one_reference");
     vassert!(cache.load().0 == model::addr(init), "cache_first_load_returns_the_stored_value");
     vassert!(model::cnt(init) == c0[init] + 1, "cache_hit_touches_no_count");
-
     let mut cur = init;
     let mut k = 0;
-    while k < 2 {
-        if nd::any_bool() {
-            let x = hy::any_obj();
-            s.store(fresh_handle(x));
-            cur = x;
-        }
+    while k < stores.len() {
+        s.store(fresh_handle(stores[k]));
+        cur = stores[k];
         k += 1;
     }
-    // counts with the cache's reference taken out, before the observing load
     let c1 = counts();
     hooks_on();
     let w_ld = model::watch(model::K_LOAD, api::storage_addr(&s));
@@ -92,7 +83,57 @@ pub(crate) fn c16_cache_load() {
     drop(clone);
     vassert!(model::cnt(cur) == c2[cur] - 1, "cache_clone_drop_releases_its_reference");
     mem::forget(s);
-    vcover!("c16_cache_load_end");
+}
+
+// @harness name=c16_cache_hit props=C16 tier=quick flavour=nostd timeout=1800 fn=Cache::new+Cache::load+Cache::revalidate
+#[cfg_attr(kani, kani::proof)]
+#[cfg_attr(kani, kani::stub(crate::debt::Debt::pay_all, crate::debt::verif_h::pay_all_stub))]
+#[cfg_attr(kani, kani::stub(crate::debt::LocalNode::with, crate::debt::verif_h::list_h::with_static))]
+#[cfg_attr(kani, kani::stub(crate::debt::Node::get, crate::debt::verif_h::list_h::node_get_unexpected))]
+#[cfg_attr(kani, kani::unwind(12))]
+pub(crate) fn c16_cache_hit() {
+    cache_scenario(0, &[]);
+    vcover!("c16_cache_hit_end");
+}
+// @harness name=c16_cache_miss props=C16 tier=quick flavour=nostd timeout=1800 fn=Cache::new+Cache::load+Cache::revalidate
+#[cfg_attr(kani, kani::proof)]
+#[cfg_attr(kani, kani::stub(crate::debt::Debt::pay_all, crate::debt::verif_h::pay_all_stub))]
+#[cfg_attr(kani, kani::stub(crate::debt::LocalNode::with, crate::debt::verif_h::list_h::with_static))]
+#[cfg_attr(kani, kani::stub(crate::debt::Node::get, crate::debt::verif_h::list_h::node_get_unexpected))]
+#[cfg_attr(kani, kani::unwind(12))]
+pub(crate) fn c16_cache_miss() {
+    cache_scenario(0, &[1]);
+    vcover!("c16_cache_miss_end");
+}
+// @harness name=c16_cache_same_again props=C16 tier=quick flavour=nostd timeout=1800 fn=Cache::new+Cache::load+Cache::revalidate
+#[cfg_attr(kani, kani::proof)]
+#[cfg_attr(kani, kani::stub(crate::debt::Debt::pay_all, crate::debt::verif_h::pay_all_stub))]
+#[cfg_attr(kani, kani::stub(crate::debt::LocalNode::with, crate::debt::verif_h::list_h::with_static))]
+#[cfg_attr(kani, kani::stub(crate::debt::Node::get, crate::debt::verif_h::list_h::node_get_unexpected))]
+#[cfg_attr(kani, kani::unwind(12))]
+pub(crate) fn c16_cache_same_again() {
+    cache_scenario(0, &[0]);
+    vcover!("c16_cache_same_again_end");
+}
+// @harness name=c16_cache_aba props=C16 tier=quick flavour=nostd timeout=1800 fn=Cache::new+Cache::load+Cache::revalidate
+#[cfg_attr(kani, kani::proof)]
+#[cfg_attr(kani, kani::stub(crate::debt::Debt::pay_all, crate::debt::verif_h::pay_all_stub))]
+#[cfg_attr(kani, kani::stub(crate::debt::LocalNode::with, crate::debt::verif_h::list_h::with_static))]
+#[cfg_attr(kani, kani::stub(crate::debt::Node::get, crate::debt::verif_h::list_h::node_get_unexpected))]
+#[cfg_attr(kani, kani::unwind(12))]
+pub(crate) fn c16_cache_aba() {
+    cache_scenario(0, &[1, 0]);
+    vcover!("c16_cache_aba_end");
+}
+// @harness name=c16_cache_two_changes props=C16 tier=thorough flavour=nostd timeout=1800 fn=Cache::new+Cache::load+Cache::revalidate
+#[cfg_attr(kani, kani::proof)]
+#[cfg_attr(kani, kani::stub(crate::debt::Debt::pay_all, crate::debt::verif_h::pay_all_stub))]
+#[cfg_attr(kani, kani::stub(crate::debt::LocalNode::with, crate::debt::verif_h::list_h::with_static))]
+#[cfg_attr(kani, kani::stub(crate::debt::Node::get, crate::debt::verif_h::list_h::node_get_unexpected))]
+#[cfg_attr(kani, kani::unwind(12))]
+pub(crate) fn c16_cache_two_changes() {
+    cache_scenario(0, &[1, 2]);
+    vcover!("c16_cache_two_changes_end");
 }
 
 static mut PROJ_CALLS: usize = 0;
@@ -107,18 +148,13 @@ fn project(t: &TP) -> &usize {
 }
 
 // MapCache::load = the projection applied, once, to exactly the value Cache::load returns.
-// @harness name=c16_map_cache props=C16 tier=quick flavour=nostd timeout=2400 fn=MapCache::load+Cache::map
-#[cfg_attr(kani, kani::proof)]
-#[cfg_attr(kani, kani::stub(crate::debt::Debt::pay_all, crate::debt::verif_h::pay_all_stub))]
-#[cfg_attr(kani, kani::unwind(12))]
-pub(crate) fn c16_map_cache() {
+fn map_cache_scenario(init: usize, store: Option<usize>) {
+    crate::debt::verif_h::list_h::setup_thread_node();
     hy::fresh_ledger();
-    let init = hy::any_obj();
     let s: AS<DefaultConfig> = ArcSwapAny::with_strategy(TP::adopt(init), hy::strategy::<DefaultConfig>());
     let mut mc = Cache::new(&s).map(project);
     let mut cur = init;
-    if nd::any_bool() {
-        let x = hy::any_obj();
+    if let Some(x) = store {
         s.store(fresh_handle(x));
         cur = x;
     }
@@ -134,5 +170,24 @@ pub(crate) fn c16_map_cache() {
     }
     mem::forget(mc);
     mem::forget(s);
-    vcover!("c16_map_cache_end");
+}
+// @harness name=c16_map_cache_miss props=C16 tier=quick flavour=nostd timeout=1800 fn=MapCache::load+Cache::map
+#[cfg_attr(kani, kani::proof)]
+#[cfg_attr(kani, kani::stub(crate::debt::Debt::pay_all, crate::debt::verif_h::pay_all_stub))]
+#[cfg_attr(kani, kani::stub(crate::debt::LocalNode::with, crate::debt::verif_h::list_h::with_static))]
+#[cfg_attr(kani, kani::stub(crate::debt::Node::get, crate::debt::verif_h::list_h::node_get_unexpected))]
+#[cfg_attr(kani, kani::unwind(12))]
+pub(crate) fn c16_map_cache_miss() {
+    map_cache_scenario(0, Some(1));
+    vcover!("c16_map_cache_miss_end");
+}
+// @harness name=c16_map_cache_hit props=C16 tier=thorough flavour=nostd timeout=1800 fn=MapCache::load+Cache::map
+#[cfg_attr(kani, kani::proof)]
+#[cfg_attr(kani, kani::stub(crate::debt::Debt::pay_all, crate::debt::verif_h::pay_all_stub))]
+#[cfg_attr(kani, kani::stub(crate::debt::LocalNode::with, crate::debt::verif_h::list_h::with_static))]
+#[cfg_attr(kani, kani::stub(crate::debt::Node::get, crate::debt::verif_h::list_h::node_get_unexpected))]
+#[cfg_attr(kani, kani::unwind(12))]
+pub(crate) fn c16_map_cache_hit() {
+    map_cache_scenario(0, None);
+    vcover!("c16_map_cache_hit_end");
 }
